@@ -146,7 +146,21 @@ func rulePadShape(p *Program, r *Result, parts string) {
 			}
 		}
 		names := []string{}
+		var writeOps []ssa.Value
+		expanded := map[ssa.CallInstruction]bool{}
 		for _, c := range seq {
+			if c.Common().Method.Name() == "Write" && len(c.Common().Args) == 1 {
+				// h.Write(part) for part ranging over a fixed list of inputs: one Write per entry, in order
+				if parts, ok := fixedListElems(c.Common().Args[0]); ok && len(seq) > 0 && domInstrAll(parts, seq[0]) {
+					for _, pv := range parts {
+						names = append(names, "Write")
+						writeOps = append(writeOps, pv)
+					}
+					expanded[c] = true
+					continue
+				}
+				writeOps = append(writeOps, c.Common().Args[0])
+			}
 			names = append(names, c.Common().Method.Name())
 		}
 		wantOrder := "Reset Write Write Write Write Write Sum"
@@ -156,10 +170,37 @@ func rulePadShape(p *Program, r *Result, parts string) {
 			why = "hash calls are [" + strings.Join(names, " ") + "], expected [" + wantOrder + "]"
 		} else {
 			blk := seq[0].Block()
-			for _, c := range seq {
-				if c.Block() != blk {
+			last := seq[len(seq)-1]
+			for i, c := range seq {
+				if c.Block() == blk {
+					continue
+				}
+				// not in the block of Reset: still one sequence when each call follows the previous one on every
+				// path of the round, runs once per round (not inside an inner loop, unless it is the expanded
+				// Write of a fixed list), and lies on every path to Sum
+				inner := false
+				for _, sc := range c.Block().Succs {
+					if sc != blk && blockReach(sc, map[*ssa.BasicBlock]bool{blk: true})[c.Block()] {
+						inner = true
+					}
+				}
+				follows := i > 0 && domInstr(seq[i-1], c)
+				if i > 0 && expanded[seq[i-1]] {
+					// after the loop over the list: its head is passed on every path here
+					hd := seq[i-1].Block().Idom()
+					follows = hd != nil && hd.Dominates(c.Block()) && blockReach(seq[i-1].Block(), nil)[c.Block()]
+				}
+				if i == 0 || !follows || inner != expanded[c] || !(c.Block() == last.Block() || c.Block().Dominates(last.Block()) || expanded[c]) {
 					bOK = false
 					why = "the hash calls are not one straight-line sequence"
+				}
+				if expanded[c] {
+					// the loop over the list is passed on the way to Sum: its head dominates Sum's block
+					hd := c.Block().Idom()
+					if hd == nil || !(hd.Dominates(last.Block())) || !blockReach(c.Block(), nil)[last.Block()] {
+						bOK = false
+						why = "the loop over the list of hash inputs can be skipped"
+					}
 				}
 			}
 			if bOK && !blockReachFromSelf(blk) {
@@ -169,8 +210,8 @@ func rulePadShape(p *Program, r *Result, parts string) {
 		}
 		var sum ssa.Value
 		if bOK {
-			ops := []ssa.Value{seq[1].Common().Args[0], seq[2].Common().Args[0], seq[3].Common().Args[0], seq[4].Common().Args[0], seq[5].Common().Args[0]}
-			sum = seq[6].Value()
+			ops := writeOps
+			sum = seq[len(seq)-1].Value()
 			// 1: session id
 			if call, idx, ok := extractOf(ops[0]); !ok || idx != 0 || call.Common().StaticCallee() == nil || call.Common().StaticCallee().Name() != "MarshalBinary" ||
 				!headerFieldAddr(call.Common().Args[0], pkt, "SessionID") || !sessionIDIsBE32(call.Common().StaticCallee()) {
@@ -227,7 +268,7 @@ func rulePadShape(p *Program, r *Result, parts string) {
 			if !chainOK {
 				bOK, why = false, "5th hash input is not 'empty on the first round, the previous digest afterwards'"
 			}
-			if !isNilConst(seq[6].Common().Args[0]) {
+			if !isNilConst(seq[len(seq)-1].Common().Args[0]) {
 				bOK, why = false, "Sum is not called with nil"
 			}
 		}
@@ -282,15 +323,41 @@ func rulePadShape(p *Program, r *Result, parts string) {
 						good = false
 					}
 				}
-				// loop condition: len(pad) < headerLen
+				// the other way of truncating: each digest is cut to what is still missing before it is appended,
+				// append(pad, sum[:min(headerLen-len(pad), len(sum))]...)
+				if sl, ok := rf.(*ssa.Slice); ok && !trunc && good && sl.Low == nil && sl.High != nil {
+					if isMinOfMissingAndLen(sl.High, ph, sum, pkt) {
+						trunc = true
+					}
+				}
+				// loop condition: len(pad) < headerLen (or the exit test len(pad) >= headerLen at the head of the loop)
 				loopOK := false
-				if iff, ok := ph.Block().Instrs[len(ph.Block().Instrs)-1].(*ssa.If); ok {
-					if bo, ok := iff.Cond.(*ssa.BinOp); ok && bo.Op == token.LSS && isHeaderLen(bo.Y, pkt) {
-						if lc, ok := bo.X.(*ssa.Call); ok {
-							if b2, ok := lc.Common().Value.(*ssa.Builtin); ok && b2.Name() == "len" && lc.Common().Args[0] == ssa.Value(ph) {
-								loopOK = true
-							}
-						}
+				for _, hb := range []*ssa.BasicBlock{ph.Block()} {
+					iff, ok := hb.Instrs[len(hb.Instrs)-1].(*ssa.If)
+					if !ok {
+						continue
+					}
+					bo, ok := iff.Cond.(*ssa.BinOp)
+					if !ok || !isHeaderLen(bo.Y, pkt) {
+						continue
+					}
+					lc, ok := bo.X.(*ssa.Call)
+					if !ok {
+						continue
+					}
+					if b2, ok := lc.Common().Value.(*ssa.Builtin); !ok || b2.Name() != "len" || lc.Common().Args[0] != ssa.Value(ph) {
+						continue
+					}
+					bodySucc := -1
+					switch bo.Op {
+					case token.LSS:
+						bodySucc = 0
+					case token.GEQ:
+						bodySucc = 1
+					}
+					// the body side leads to the append, the other side leaves the loop
+					if bodySucc >= 0 && (hb.Succs[bodySucc] == ap.Block() || hb.Succs[bodySucc].Dominates(ap.Block())) && !blockReach(hb.Succs[1-bodySucc], nil)[ap.Block()] {
+						loopOK = true
 					}
 				}
 				cOK = good && trunc && loopOK
@@ -434,6 +501,66 @@ func sessionIDIsBE32(f *ssa.Function) bool {
 			}
 		}
 	}
+	// written out octet by octet: a 4-byte array holding byte(v>>24), byte(v>>16), byte(v>>8), byte(v) of the
+	// receiver's value, returned whole
+	for _, b := range f.Blocks {
+		ret, ok := b.Instrs[len(b.Instrs)-1].(*ssa.Return)
+		if !ok || len(ret.Results) == 0 || b == f.Recover {
+			continue
+		}
+		sl, ok := ret.Results[0].(*ssa.Slice)
+		if !ok || sl.Low != nil || sl.High != nil {
+			continue
+		}
+		arr, ok := sl.X.(*ssa.Alloc)
+		if !ok {
+			continue
+		}
+		at, ok := arr.Type().(*types.Pointer).Elem().Underlying().(*types.Array)
+		if !ok || at.Len() != 4 {
+			continue
+		}
+		got := map[int64]int64{}
+		clean := true
+		for _, rf := range refsOf(arr) {
+			switch x := rf.(type) {
+			case *ssa.IndexAddr:
+				k, okk := constInt(x.Index)
+				for _, r2 := range refsOf(x) {
+					st, ok := r2.(*ssa.Store)
+					cv, isCv := (ssa.Value)(nil), false
+					if ok {
+						cv, isCv = st.Val, true
+					}
+					c2, okc := cv.(*ssa.Convert)
+					if !ok || !okk || !isCv || !okc {
+						clean = false
+						continue
+					}
+					src, sh, oko := octetOf(c2)
+					if !oko {
+						clean = false
+						continue
+					}
+					v := stripAllConv(src)
+					if u, ok := v.(*ssa.UnOp); !ok || u.Op != token.MUL || u.X != ssa.Value(f.Params[0]) {
+						clean = false
+						continue
+					}
+					if _, dup := got[k]; dup {
+						clean = false
+					}
+					got[k] = sh
+				}
+			case *ssa.Slice, *ssa.DebugRef:
+			default:
+				clean = false
+			}
+		}
+		if clean && len(got) == 4 && got[0] == 3 && got[1] == 2 && got[2] == 1 && got[3] == 0 {
+			return true
+		}
+	}
 	return false
 }
 
@@ -532,4 +659,172 @@ func rulePadCallSites(p *Program, r *Result) {
 			}
 		}
 	}
+}
+
+// fixedListElems: v is the element of a fixed-size array literal of byte slices visited by a loop over the whole
+// array (for _, part := range [N][]byte{a, b, c}); returns the entries in order.
+func fixedListElems(v ssa.Value) ([]ssa.Value, bool) {
+	var arr *ssa.Alloc
+	var index ssa.Value
+	var at0 ssa.Instruction
+	var skip ssa.Instruction
+	if ix, ok := v.(*ssa.Index); ok {
+		// the array is ranged over by value: t = *arr; t[i]
+		ld, ok := ix.X.(*ssa.UnOp)
+		if !ok || ld.Op != token.MUL {
+			return nil, false
+		}
+		arr, _ = ld.X.(*ssa.Alloc)
+		index, at0, skip = ix.Index, ix, ld
+		// the copy is taken after the entries were stored
+		if arr != nil {
+			for _, rf := range refsOf(arr) {
+				if x, ok := rf.(*ssa.IndexAddr); ok {
+					for _, r2 := range refsOf(x) {
+						if st, ok := r2.(*ssa.Store); ok && !domInstr(st, ld) {
+							return nil, false
+						}
+					}
+				}
+			}
+		}
+	} else {
+		u, ok := v.(*ssa.UnOp)
+		if !ok || u.Op != token.MUL {
+			return nil, false
+		}
+		ia, ok := u.X.(*ssa.IndexAddr)
+		if !ok {
+			return nil, false
+		}
+		arr, _ = ia.X.(*ssa.Alloc)
+		index, at0, skip = ia.Index, ia, ia
+	}
+	if arr == nil || !isAscendingIndex(index) {
+		return nil, false
+	}
+	at, ok := arr.Type().(*types.Pointer).Elem().Underlying().(*types.Array)
+	if !ok || at.Len() == 0 || at.Len() > 16 {
+		return nil, false
+	}
+	// the loop runs the index over 0..N-1: its head compares index+1 (or index) with the constant N
+	idxPhi, _ := index.(*ssa.Phi)
+	if bo, ok := index.(*ssa.BinOp); ok {
+		idxPhi, _ = bo.X.(*ssa.Phi)
+	}
+	if idxPhi == nil {
+		return nil, false
+	}
+	whole := false
+	for _, b := range arr.Parent().Blocks {
+		iff, ok := b.Instrs[len(b.Instrs)-1].(*ssa.If)
+		if !ok {
+			continue
+		}
+		bo, ok := iff.Cond.(*ssa.BinOp)
+		if !ok || bo.Op != token.LSS {
+			continue
+		}
+		if c, okc := constInt(bo.Y); okc && c == at.Len() && isAscendingIndex(bo.X) {
+			x := bo.X
+			if b2, ok := x.(*ssa.BinOp); ok {
+				x = b2.X
+			}
+			if x == ssa.Value(idxPhi) && (b.Succs[0] == at0.Block() || b.Succs[0].Dominates(at0.Block())) {
+				whole = true
+			}
+		}
+	}
+	if !whole {
+		return nil, false
+	}
+	out := make([]ssa.Value, at.Len())
+	for _, rf := range refsOf(arr) {
+		if rf == skip {
+			continue
+		}
+		x, ok := rf.(*ssa.IndexAddr)
+		if !ok {
+			if _, isDbg := rf.(*ssa.DebugRef); isDbg {
+				continue
+			}
+			return nil, false
+		}
+		k, okk := constInt(x.Index)
+		if !okk || k < 0 || k >= at.Len() {
+			return nil, false
+		}
+		for _, r2 := range refsOf(x) {
+			st, ok := r2.(*ssa.Store)
+			if !ok || st.Addr != ssa.Value(x) || out[k] != nil {
+				return nil, false
+			}
+			out[k] = st.Val
+		}
+	}
+	for _, v := range out {
+		if v == nil {
+			return nil, false
+		}
+	}
+	return out, true
+}
+
+// domInstrAll: every value (an instruction) is computed before at, on every path.
+func domInstrAll(vs []ssa.Value, at ssa.Instruction) bool {
+	for _, v := range vs {
+		in, ok := v.(ssa.Instruction)
+		if !ok {
+			continue // parameters and constants
+		}
+		if !domInstr(in, at) {
+			return false
+		}
+	}
+	return true
+}
+
+// isMinOfMissingAndLen: hv = min(headerLen - len(pad), len(sum)), written as
+// need := headerLen - len(pad); if need > len(sum) { need = len(sum) }.
+func isMinOfMissingAndLen(hv ssa.Value, pad *ssa.Phi, sum ssa.Value, pkt ssa.Value) bool {
+	ph, ok := hv.(*ssa.Phi)
+	if !ok || len(ph.Edges) != 2 {
+		return false
+	}
+	isLenOf := func(v ssa.Value, of ssa.Value) bool {
+		c, ok := v.(*ssa.Call)
+		if !ok {
+			return false
+		}
+		bi, ok := c.Common().Value.(*ssa.Builtin)
+		return ok && bi.Name() == "len" && c.Common().Args[0] == of
+	}
+	isNeed := func(v ssa.Value) bool {
+		bo, ok := v.(*ssa.BinOp)
+		return ok && bo.Op == token.SUB && isHeaderLen(bo.X, pkt) && isLenOf(bo.Y, pad)
+	}
+	for i, e := range ph.Edges {
+		other := ph.Edges[1-i]
+		if !isNeed(e) || !isLenOf(other, sum) {
+			continue
+		}
+		// the edge carrying `need` comes straight from the test 'need > len(sum)' on its false side; the edge
+		// carrying len(sum) from its true side
+		tb := ph.Block().Preds[i]
+		iff, ok := tb.Instrs[len(tb.Instrs)-1].(*ssa.If)
+		if !ok {
+			return false
+		}
+		bo, ok := iff.Cond.(*ssa.BinOp)
+		if !ok {
+			return false
+		}
+		gt := (bo.Op == token.GTR && bo.X == e && isLenOf(bo.Y, sum)) || (bo.Op == token.LSS && bo.Y == e && isLenOf(bo.X, sum))
+		if !gt || tb.Succs[1] != ph.Block() {
+			return false
+		}
+		ob := ph.Block().Preds[1-i]
+		return tb.Succs[0] == ob && len(ob.Preds) == 1
+	}
+	return false
 }
